@@ -49,15 +49,35 @@ type c27Addr struct {
 var c27Addrs = []c27Addr{{"127.0.0.1", "", true}, {"127.9.9.9", "", true}, {"::1", "", true}, {"::ffff:127.0.0.1", "", true},
 	{"10.0.0.5", "", false}, {"192.168.1.7", "", false}, {"2001:db8::1", "", false}, {"fe80::1", "eth0", false}, {"::ffff:10.0.0.5", "", false}, {"128.0.0.1", "", false}}
 
-var c27Progs = []uint32{100003, 100005, 200001}
+var c27Progs = []uint32{100003, 100005, 200001, 100021, 100024, 300019}
 var c27PVers = []uint32{1, 3}
 
 func genC27(t *rapid.T) c27Case {
 	var c c27Case
+	if rapid.IntRange(0, 3).Draw(t, "bulk") == 0 {
+		// a registry that grows to many live mappings and is then taken down again, with lookups and dumps on the way
+		k := rapid.IntRange(9, 22).Draw(t, "bulk_sets")
+		keys := rapid.Permutation([]int{0, 1, 2, 3, 4, 5, 6, 7, 8, 9, 10, 11, 12, 13, 14, 15, 16, 17, 18, 19, 20, 21, 22, 23}).Draw(t, "bulk_keys")[:k]
+		mk := func(key int, proc uint32, vers uint32) c27Call {
+			return c27Call{Addr: 0, Vers: vers, Proc: proc, Prog: key % 6, PVers: (key / 6) % 2, Prot: (key / 12) % 2, Port: uint32(1000 + key)}
+		}
+		for _, key := range keys {
+			c.Calls = append(c.Calls, mk(key, nfsx.PmapSet, pick(t, "bv", uint32(2), 3, 4)))
+		}
+		m := rapid.IntRange(1, k).Draw(t, "bulk_unsets")
+		for i := 0; i < m; i++ {
+			c.Calls = append(c.Calls, mk(keys[i], nfsx.PmapUnset, pick(t, "buv", uint32(2), 3, 4)))
+			if rapid.IntRange(0, 2).Draw(t, "bulk_probe") == 0 {
+				c.Calls = append(c.Calls, mk(keys[rapid.IntRange(0, k-1).Draw(t, "bulk_pk")], nfsx.PmapGetport, pick(t, "bgv", uint32(2), 3, 4)))
+				c.Calls = append(c.Calls, mk(0, nfsx.PmapDump, pick(t, "bdv", uint32(2), 3, 4)))
+			}
+		}
+		c.Calls = append(c.Calls, mk(0, nfsx.PmapDump, 2), mk(0, nfsx.PmapDump, 4))
+	}
 	n := rapid.IntRange(2, 25).Draw(t, "n")
 	for i := 0; i < n; i++ {
 		cl := c27Call{Addr: rapid.IntRange(0, len(c27Addrs)-1).Draw(t, "addr"), Vers: pick(t, "vers", uint32(2), 2, 3, 4, 3, 1, 5), Proc: pick(t, "proc", uint32(1), 1, 1, 2, 2, 3, 3, 4, 4, 0, 5, 9),
-			Prog: rapid.IntRange(0, 2).Draw(t, "prog"), PVers: rapid.IntRange(0, 1).Draw(t, "pvers"), Prot: pick(t, "prot", 0, 0, 0, 1, 1, 1, 2),
+			Prog: rapid.IntRange(0, 5).Draw(t, "prog"), PVers: rapid.IntRange(0, 1).Draw(t, "pvers"), Prot: pick(t, "prot", 0, 0, 0, 1, 1, 1, 2),
 			Port: pick(t, "port", uint32(2049), 635, 1, 65535, 256, 255, 40000), V6: rapid.IntRange(0, 3).Draw(t, "v6") == 0, Cut: rapid.IntRange(0, 5).Draw(t, "cut")}
 		if rapid.IntRange(0, 2).Draw(t, "loop") == 0 {
 			cl.Addr = rapid.IntRange(0, 3).Draw(t, "laddr")
